@@ -649,7 +649,7 @@ func init() {
 			var cs []c20PoolSeq
 			for mi := 0; mi <= 3; mi++ {
 				for nb := 1; nb <= 2; nb++ {
-					depth := e.Pick(5, 7)
+					depth := e.Pick(5, 6) // one more step costs ten times the histories, and the per-process cost grows with their square (see below)
 					if nb == 2 {
 						depth--
 					}
